@@ -399,6 +399,9 @@ func restoreFsize() {
 
 func (ep *episode) faultPath(j *Job, ext string) (string, error) {
 	base := filepath.Join(ep.dir, fmt.Sprintf("job%d.%s", j.ID, ext))
+	if j.Name != "" {
+		base = filepath.Join(ep.dir, fmt.Sprintf("j%d-", j.ID)+strings.ReplaceAll(j.Name, "EXT", ext))
+	}
 	switch j.Fault.Kind {
 	case "", "fsize", "vanish":
 		return base, nil
